@@ -20,7 +20,7 @@ func init() {
 var lexAlphabet = []byte("'\"`\\-/*#${}.019exb_a;:( \n\x00\xc3\xa9\xff\xe2\x80\x98@=<>|!?")
 
 var lexSnippets = []string{"$a$", "$$", "x'", "b'", "X'4", "0x", "0b1", "0o7", "1e", "1e+", ".5", "1.", "--", "/*", "*/", "\\x", "\\", "é", "中", "−", "‘", "’", "“", "”",
-	"\ufeff", "\u200b", "select", "SELECT", "a.1_x", ".1_x", "1_000", "1__0", "@@v", "@", "{p:T}", "<=>", "->", "::", "||", "!=", "<>", "'", "''", "\"", "``", "`", "$tag$", "$tag$ x $tag$", "ı", "ſelect", "\xe2\x80", "\xf0\x9f\x98", "\xf0\x9f\x98\x80", "\r\n", "\t", "1e5", "0x1p-3", "1.5e+3", "db.02_t", "9a", "0xg"}
+	"\ufeff", "\u200b", "select", "SELECT", "a.1_x", ".1_x", "1_000", "1__0", "@@v", "@", "{p:T}", "<=>", "->", "::", "||", "!=", "<>", "'", "''", "\"", "``", "`", "$tag$", "$tag$ x $tag$", "ı", "ſelect", "\xe2\x80", "\xf0\x9f\x98", "\xf0\x9f\x98\x80", "\r\n", "\t", "1e5", "0x1p-3", "1.5e+3", "db.02_t", "9a", "0xg", "٣", "५", "５", "٣_a", "1٣", ".٣", "€", "x'41€'", "'\\x中'"}
 
 // lexInputs enumerates the shared lexer input space.
 func lexInputs(w *W, maxLen int, f func(idx int, in []byte, desc string)) {
@@ -112,6 +112,19 @@ func lexInputs(w *W, maxLen int, f func(idx int, in []byte, desc string)) {
 		}
 		if n*len(l.unit) <= maxLen {
 			emit([]byte(strings.Repeat(l.unit, n)), fmt.Sprintf("long:%q*%d", l.unit, n))
+		}
+	}
+	// two-character tokens and one-character look-aheads slid across the read-buffer boundaries
+	slide := []string{"--c", "/*c*/", "*/", "''", "'a''b'", "->", "::", "||", "<=", ">=", "!=", "<>", "<=>", "==", "1e5", "1.5", ".5", "a.1_x", "$$x$$", "x'41'", "b'01'", "@@v", "0x1F", "1_000", "\\n", "`a``b`", "\"a\"\"b\"", "é", "中a", "9a", "1.", "a.b"}
+	for _, sn := range slide {
+		for _, mark := range []int{4096, 8192} {
+			if mark+64 > maxLen {
+				continue
+			}
+			for start := mark - len(sn) - 2; start <= mark+1; start++ {
+				emit([]byte(strings.Repeat(" ", start)+sn+" z"), fmt.Sprintf("slide:%d", mark))
+				emit([]byte("'"+strings.Repeat("s", start-2)+"'"+sn+" z"), fmt.Sprintf("slidestr:%d", mark))
+			}
 		}
 	}
 	for _, d := range []int{28, 30, 31, 32, 33, 4090, 4094, 4095, 4096, 4097, 4100, 8188, 8191, 8192, 8193} {
